@@ -38,7 +38,7 @@ fn setup(ctx: &mut Ctx) {
 // 7 ident positions x 4 encodings; each case sweeps all 256 byte values
 fn strata(t: Tier) -> Vec<Stratum> {
     vec![
-        ex("ident-byte-sweep", scale(t, 28, 28, 4)),
+        ex("ident-byte-sweep", scale(t, 28, 28, 28)),
         st("multi-byte-magic-and-multi-defect", scale(t, 480_000, 4_800_000, 10)),
         st("any-vs-fixed-equivalence", scale(t, 240_000, 2_400_000, 3)),
     ]
@@ -244,6 +244,10 @@ fn run(ctx: &mut Ctx, si: usize, case: u64) {
             let base = base_file(enc);
             ctx.sample(|| format!("{} minimal file, ident byte {} set to all 256 values x 4 specs x 3 entry points", enc.name(), pos));
             for v in 0..=255u8 {
+                // under Miri a representative subset of the byte values
+                if ctx.tier == Tier::Miri && ![0u8, 1, 2, 3, 0x45, 0x46, 0x4c, 0x7e, 0x7f, 0x80, 0xfe, 0xff].contains(&v) {
+                    continue;
+                }
                 let mut f = base.clone();
                 f[pos] = v;
                 ctx.nontrivial(((enc.idx() as u64) << 24) | ((pos as u64) << 8) | v as u64);
